@@ -187,16 +187,33 @@ pub fn case_in_cell(cell: Cell, force: Force, mask: Option<u8>) -> BoxedStrategy
         // cannot happen for real cells (every cell holds >= 1 character)
         unreachable!();
     }
-    length(cell, force.version, min_len)
-        .prop_flat_map(move |len| payload(cell.mode, len, !force.mode))
-        .prop_map(move |(input, fam)| {
-            let opts = Opts {
-                mode: if force.mode { Some(cell.mode) } else { None },
-                level: if force_level { Some(cell.level) } else { None },
-                version: if force.version { Some(cell.version) } else { None },
-                mask,
+    let opts = Opts {
+        mode: if force.mode { Some(cell.mode) } else { None },
+        level: if force_level { Some(cell.level) } else { None },
+        version: if force.version { Some(cell.version) } else { None },
+        mask,
+    };
+    any::<u16>()
+        .prop_flat_map(move |warm_sel| {
+            // one case in four reuses a builder that has already been built with other option values
+            let proto = BuildCase::new(Vec::new(), opts.clone()).with_warm_sel(warm_sel);
+            // when the warm-up build uses the same forced version at a level with LESS capacity, half of the lengths are
+            // drawn at that level's boundaries (0..3 spare bits in the first build is where a stale bit stream differs)
+            let warm_cell = match (&proto.warm, force.version) {
+                (Some(w), true) if w.version == Some(cell.version) => w.level.filter(|l| *l != cell.level).map(|l| Cell { version: cell.version, level: l, mode: cell.mode }).filter(|wc| wc.cap() <= cell.cap()),
+                _ => None,
             };
-            (BuildCase::new(input, opts), fam)
+            let len = match warm_cell {
+                Some(wc) => prop_oneof![length(cell, true, min_len), length(wc, true, min_len)].boxed(),
+                None => length(cell, force.version, min_len),
+            };
+            let warm = proto.warm.clone();
+            let opts = opts.clone();
+            len.prop_flat_map(move |len| payload(cell.mode, len, !force.mode)).prop_map(move |(input, fam)| {
+                let mut bc = BuildCase::new(input, opts.clone());
+                bc.warm = warm.clone();
+                (bc, fam)
+            })
         })
         .boxed()
 }
